@@ -202,6 +202,7 @@ Definition lint_use_model (c : lint_ctx) (kind name at_ : string) (m : N) : bool
   else lint_stmt name (lint_mode m).
 Definition gap_kind (kind : string) : string :=
   if String.eqb kind "IV" then "var-interp" else if String.eqb kind "IF" then "func-interp" else "stmt-interp".
-(* a recorded gap of the use in one of the single scopes of the mask *)
+(* a recorded gap of the use under a single scope or a two-scope annotation contained in the mask
+   (a use that fails from one entry subroutine, or for one pair of entries, fails for every superset) *)
 Definition use_gap_covers (kind name at_ : string) (m : N) : bool :=
-  existsb (fun s => gap_covers (gap_kind kind) name at_ s) (scopes_of m).
+  existsb (fun p => N.eqb (N.land (mask_at p) m) (mask_at p) && gap_covers (gap_kind kind) name at_ p) positions45.
